@@ -1,8 +1,9 @@
 ------------------------- MODULE MC_TransformState -------------------------
 EXTENDS TransformState
-\* grids a dense (displacement / velocity) model can be moved to: same domain other size, the same grid with the
-\* other align_corners convention, and a grid with another domain
-GridsDense  == <<"G", "G2", "Gac", "Gother">>
+\* grids a dense (displacement / velocity) model can be moved to: same domain other sizes, the same grid with the
+\* other align_corners convention.  (Moving to a grid with ANOTHER domain resamples and re-orients the field; that is
+\* the subject of C10 - the version encoding of the conformance harness cannot follow it, so it is not in this lattice.)
+GridsDense  == <<"G", "G2", "Gac", "G3">>
 GridsDenseQ == <<"G", "G2", "Gac">>
 \* spline models: the control grid can be refined by moving to the 2n-1 grid of the same domain
 GridsSpline == <<"G", "Gfine">>
